@@ -1056,9 +1056,8 @@ pub fn sublist3(list: &Value, position_value: &Value, length_value: &Value) -> V
           if position_number.is_positive() {
             if let Some(position) = position_number.to_usize() {
               let first = position - 1;
-              let last = first + length;
-              if first < items.len() && last <= items.len() {
-                return Value::List(Values::new(items.as_vec()[first..last].to_vec()));
+              if first < items.len() && length <= items.len() - first {
+                return Value::List(Values::new(items.as_vec()[first..first + length].to_vec()));
               }
             }
           }
@@ -1068,9 +1067,8 @@ pub fn sublist3(list: &Value, position_value: &Value, length_value: &Value) -> V
                 return value_null!("start position is before the beginning of the list");
               }
               let first = items.len() - position;
-              let last = first + length;
-              if first < items.len() && last <= items.len() {
-                return Value::List(Values::new(items.as_vec()[first..last].to_vec()));
+              if first < items.len() && length <= items.len() - first {
+                return Value::List(Values::new(items.as_vec()[first..first + length].to_vec()));
               }
             }
           }
@@ -1104,13 +1102,13 @@ pub fn substring(input_string_value: &Value, start_position_value: &Value, lengt
           };
           if start > 0 {
             let index = (start - 1) as usize;
-            if index < input_string_len && index + count <= input_string_len {
+            if index < input_string_len && count <= input_string_len - index {
               return Value::String(input_string.chars().skip(index).take(count).collect());
             }
           }
           if start < 0 {
             let index = (input_string_len as isize) + start;
-            if index >= 0 && index as usize + count <= input_string_len {
+            if index >= 0 && count <= input_string_len - index as usize {
               return Value::String(input_string.chars().skip(index as usize).take(count).collect());
             }
           }
